@@ -25,13 +25,17 @@ var execFuncPrefixes = []string{}
 
 // fakeType is the dynamic type of model objects that stand for stdlib implementation types.
 type fakeType struct {
-	name    string
-	methods map[string]bool
+	name     string
+	methods  map[string]bool
+	anyIface bool
 }
 
 func (f *fakeType) Underlying() types.Type { return f }
 func (f *fakeType) String() string         { return f.name }
 func (f *fakeType) implements(it *types.Interface) bool {
+	if f.anyIface {
+		return true
+	}
 	for i := 0; i < it.NumMethods(); i++ {
 		if !f.methods[it.Method(i).Name()] {
 			return false
@@ -87,6 +91,19 @@ func (ex *Exec) modelGlobal(g *ssa.Global) (value, bool) {
 }
 
 func (ex *Exec) modelMethod(recv iface, m *types.Func) value {
+	if ft, ok := recv.t.(*fakeType); ok && ft != errFake {
+		if mc := ex.protoMethod(recv, m.Name()); mc != nil {
+			return mc
+		}
+		panic(ex.unsupported("method " + m.Name() + " on " + ft.name + " (not modelled)"))
+	}
+	if m.Name() == "ProtoReflect" {
+		t, v := recv.t, recv.v
+		return &modelClosure{name: "ProtoReflect", f: func(ex *Exec, caller *frame, pos token.Pos, args []value) value {
+			ex.Models["protoreflect(model).ProtoReflect"]++
+			return ex.protoReflectCall(t, v)
+		}}
+	}
 	if recv.t == errFake {
 		switch m.Name() {
 		case "Error":
